@@ -74,15 +74,21 @@ void profile_roundtrip(const json& plan, Ctx& ctx) {
 		if (loadNif(*nif, F0).rc != 0) { ctx.info["rejected_init"] = true; ctx.probe("rejected_input"); return; }
 	}
 	bool doRaw = jbool(plan, "raw", true), doDef = jbool(plan, "default", true);
+	const bool reuse = jbool(plan, "reuse_object", false);
+	const std::string sfx = reuse ? "@reused-object" : "";
 	if (doRaw) {
 		setStage("raw:F1");
 		SaveOut f1 = saveNif(*nif, SaveSpec());
 		if (f1.rc != 0) ctx.viol("raw:save-failed", "Save returned " + std::to_string(f1.rc));
 		ctx.hist.str(f1.bytes);
+		// F-REUSE: the application keeps its NifFile object and loads the next file into it
+		std::unique_ptr<NifFile> kept;
+		if (reuse) { kept = std::move(nif); ctx.fault("F-REUSE"); }
 		nif.reset();
 		ctx.fault("F-RESTART");
 		setStage("raw:load-F1");
-		NifFile m1;
+		NifFile fresh1;
+		NifFile& m1 = reuse ? *kept : fresh1;
 		LoadOut l1 = loadNif(m1, f1.bytes);
 		if (l1.rc != 0) ctx.viol("raw:own-output-not-loadable", "load(save(load(F0))) failed with rc=" + std::to_string(l1.rc));
 		setStage("raw:F2");
@@ -92,7 +98,7 @@ void profile_roundtrip(const json& plan, Ctx& ctx) {
 		if (f2.bytes != f1.bytes) {
 			std::string d;
 			std::string w = diffWhere(f1.bytes, f2.bytes, &d);
-			ctx.viol("raw:not-a-fixed-point:" + w, "F2 != F1 (" + d + ")");
+			ctx.viol("raw:not-a-fixed-point:" + w + sfx, "F2 != F1 (" + d + ")");
 		}
 		ctx.nontrivial = true;
 		ctx.steps += 2;
@@ -106,11 +112,12 @@ void profile_roundtrip(const json& plan, Ctx& ctx) {
 		ds.raw = false;
 		SaveOut g1 = saveNif(d0, ds);
 		ctx.hist.str(g1.bytes);
-		NifFile d1;
+		NifFile fresh2, fresh3;
+		NifFile& d1 = reuse ? d0 : fresh2;
 		setStage("default:load-G1");
 		if (loadNif(d1, g1.bytes).rc != 0) ctx.viol("default:own-output-not-loadable", "load of the default-saved file failed");
 		SaveOut g2 = saveNif(d1, ds);
-		NifFile d2;
+		NifFile& d2 = reuse ? d0 : fresh3;
 		setStage("default:load-G2");
 		if (loadNif(d2, g2.bytes).rc != 0) ctx.viol("default:own-output-not-loadable", "load of the second default-saved file failed");
 		SaveOut g3 = saveNif(d2, ds);
@@ -120,7 +127,7 @@ void profile_roundtrip(const json& plan, Ctx& ctx) {
 		if (g3.bytes != g2.bytes) {
 			std::string d;
 			std::string w = diffWhere(g2.bytes, g3.bytes, &d);
-			ctx.viol("default:no-fixed-point-within-two-rounds:" + w, "G3 != G2 (" + d + ")");
+			ctx.viol("default:no-fixed-point-within-two-rounds:" + w + sfx, "G3 != G2 (" + d + ")");
 		}
 		ctx.nontrivial = true;
 		ctx.steps += 3;
